@@ -145,6 +145,35 @@ func genC09(w *World, res *CheckResult) {
 			og.Output = strings.Join(badg, "; ")
 		}
 		res.Obls = append(res.Obls, og)
+		// closures: a function literal that outlives the call that created it (returned, stored, converted or
+		// passed on: options, patch callbacks) and writes a variable it captured keeps state between its calls,
+		// shared by every Compile or run that uses the same function value
+		var badc []string
+		nclos := 0
+		for _, f := range all {
+			if f.Parent() == nil || len(f.FreeVars) == 0 {
+				continue
+			}
+			nclos++
+			if !closureEscapes(f) {
+				continue
+			}
+			for _, fv := range f.FreeVars {
+				if why := capturedWrite(fv); why != "" {
+					badc = append(badc, shortName(f)+": "+why)
+				}
+			}
+		}
+		oc := &Obligation{Name: "module/effects:no-state-captured-by-escaping-closure", Kind: "frame", Expect: "unsat", Backend: "effects", Func: "expr.Compile, vm.VM.Run", Meta: map[string]string{}}
+		if len(badc) == 0 {
+			oc.Status = "discharged"
+			oc.Output = fmt.Sprintf("%d function literals with captured variables in the library packages: those that outlive their creating call only read what they captured", nclos)
+		} else {
+			oc.Status = "undecided"
+			sort.Strings(badc)
+			oc.Output = strings.Join(badc, "; ")
+		}
+		res.Obls = append(res.Obls, oc)
 	}
 	declared := map[string]string{}
 	for name, ct := range w.Contracts {
@@ -286,6 +315,168 @@ const modulePath = "github.com/antonmedv/expr"
 // globalUseIsState: "" if the instruction only reads the package-level
 // variable g (a load, or an element/field address that is only loaded from)
 // and g is never stored to outside its initialiser; otherwise the reason.
+// closureEscapes: some MakeClosure of f outlives the call of its parent that created it: it is returned,
+// stored in the heap, converted, sent, started as a goroutine or handed to code outside the module. A
+// closure that is only called or deferred, kept in a local variable, or passed to a module function that
+// itself only calls it, does not.
+func closureEscapes(f *ssa.Function) bool {
+	for _, b := range f.Parent().Blocks {
+		for _, in := range b.Instrs {
+			if mc, ok := in.(*ssa.MakeClosure); ok && mc.Fn == ssa.Value(f) {
+				if funcValueEscapes(mc, map[ssa.Value]bool{}, 0) {
+					return true
+				}
+			}
+		}
+	}
+	return false
+}
+
+func funcValueEscapes(v ssa.Value, seen map[ssa.Value]bool, depth int) bool {
+	if seen[v] {
+		return false
+	}
+	seen[v] = true
+	if depth > 8 || v.Referrers() == nil {
+		return true
+	}
+	for _, r := range *v.Referrers() {
+		switch y := r.(type) {
+		case *ssa.DebugRef:
+		case ssa.CallInstruction:
+			if _, isGo := y.(*ssa.Go); isGo {
+				return true
+			}
+			c := y.Common()
+			if c.Value == v && !c.IsInvoke() {
+				// called (or deferred) here; as an argument of the same call it is checked below
+			}
+			for k, a := range c.Args {
+				if a != v {
+					continue
+				}
+				callee, ok := c.Value.(*ssa.Function)
+				if !ok || len(callee.Blocks) == 0 || k >= len(callee.Params) || callee.Signature.Variadic() && k >= len(callee.Params)-1 {
+					return true
+				}
+				if funcValueEscapes(callee.Params[k], seen, depth+1) {
+					return true
+				}
+			}
+		case *ssa.Store:
+			if y.Val != v {
+				continue
+			}
+			if cellEscapes(y.Addr, seen, depth+1) {
+				return true
+			}
+		case *ssa.Phi:
+			if funcValueEscapes(y, seen, depth+1) {
+				return true
+			}
+		case *ssa.ChangeType:
+			if funcValueEscapes(y, seen, depth+1) {
+				return true
+			}
+		default:
+			return true
+		}
+	}
+	return false
+}
+
+// cellEscapes: the local variable cell (an Alloc, or the FreeVar through which a nested function literal
+// sees it) lets the function value stored in it escape.
+func cellEscapes(addr ssa.Value, seen map[ssa.Value]bool, depth int) bool {
+	if seen[addr] {
+		return false
+	}
+	seen[addr] = true
+	switch addr.(type) {
+	case *ssa.Alloc, *ssa.FreeVar:
+	default:
+		return true
+	}
+	if depth > 8 || addr.Referrers() == nil {
+		return true
+	}
+	for _, r := range *addr.Referrers() {
+		switch y := r.(type) {
+		case *ssa.DebugRef:
+		case *ssa.Store:
+			if y.Val == addr {
+				return true
+			}
+		case *ssa.UnOp:
+			if funcValueEscapes(y, seen, depth+1) {
+				return true
+			}
+		case *ssa.MakeClosure:
+			fn := y.Fn.(*ssa.Function)
+			if funcValueEscapes(y, seen, depth+1) {
+				return true // captured by a function literal that itself outlives the call
+			}
+			for k, bnd := range y.Bindings {
+				if bnd == addr && k < len(fn.FreeVars) {
+					if cellEscapes(fn.FreeVars[k], seen, depth+1) {
+						return true
+					}
+				}
+			}
+		default:
+			return true
+		}
+	}
+	return false
+}
+
+// capturedWrite: the closure stores to the captured variable fv, or writes through the map, slice or
+// pointer it holds.
+func capturedWrite(fv *ssa.FreeVar) string {
+	if fv.Referrers() == nil {
+		return ""
+	}
+	for _, r := range *fv.Referrers() {
+		switch y := r.(type) {
+		case *ssa.Store:
+			if y.Addr == ssa.Value(fv) {
+				return "assigns the captured variable " + fv.Name()
+			}
+		case *ssa.FieldAddr, *ssa.IndexAddr:
+			v := y.(ssa.Value)
+			if v.Referrers() != nil {
+				for _, rr := range *v.Referrers() {
+					if st, ok := rr.(*ssa.Store); ok && st.Addr == v {
+						return "assigns a component of the captured variable " + fv.Name()
+					}
+				}
+			}
+		case *ssa.UnOp:
+			if y.Referrers() == nil {
+				continue
+			}
+			for _, rr := range *y.Referrers() {
+				switch z := rr.(type) {
+				case *ssa.MapUpdate:
+					if z.Map == ssa.Value(y) {
+						return "updates the captured map " + fv.Name()
+					}
+				case *ssa.IndexAddr, *ssa.FieldAddr:
+					v := z.(ssa.Value)
+					if v.Referrers() != nil {
+						for _, r3 := range *v.Referrers() {
+							if st, ok := r3.(*ssa.Store); ok && st.Addr == v {
+								return "writes through the captured variable " + fv.Name()
+							}
+						}
+					}
+				}
+			}
+		}
+	}
+	return ""
+}
+
 func globalUseIsState(w *World, in ssa.Instruction, g *ssa.Global) string {
 	onlyLoads := func(v ssa.Value) bool {
 		for _, r := range *v.Referrers() {
@@ -327,6 +518,33 @@ func globalUseIsState(w *World, in ssa.Instruction, g *ssa.Global) string {
 								return "writes a field of the object the package-level variable " + g.Pkg.Pkg.Name() + "." + g.Name() + " points to"
 							}
 						}
+					}
+				}
+				// a mutable object (map, slice, pointer, channel) held by a package-level variable must not be handed
+				// out of the library code that reads it: whoever receives it shares it with every other run
+				switch x.Type().Underlying().(type) {
+				case *types.Map, *types.Slice, *types.Pointer, *types.Chan:
+					out := ""
+					switch y := r.(type) {
+					case *ssa.MakeInterface:
+						out = "converts it to an interface value"
+					case *ssa.Return:
+						out = "returns it"
+					case *ssa.Store:
+						if y.Val == ssa.Value(x) {
+							out = "stores it"
+						}
+					case *ssa.MapUpdate:
+						if y.Value == ssa.Value(x) {
+							out = "stores it in a map"
+						}
+					case *ssa.Send:
+						out = "sends it"
+					case *ssa.MakeClosure:
+						out = "captures it in a closure"
+					}
+					if out != "" {
+						return "hands out the mutable object held by the package-level variable " + g.Pkg.Pkg.Name() + "." + g.Name() + " (" + out + ")"
 					}
 				}
 			}
